@@ -78,10 +78,11 @@ int main(int argc, char** argv) {
   for (uint64_t s = sd::g_args.seed0; s < sd::g_args.seed0 + sd::g_args.n; s++) {
     Rng r(s);
     int nmesh = 0, ntex = 0, nmuscle = 0;
-    std::string xml = gen_xml(r, &nmesh, &ntex, &nmuscle, nd::g_args.mdrop);
+    bool fuse = false; int nstruct = 0;
+    std::string xml = gen_xml(r, &nmesh, &ntex, &nmuscle, nd::g_args.mdrop, false, &fuse, &nstruct);
     // steps of the case (the minimiser may drop any of them): 0 second compile, 1 copySpec, 2 copyModel, 3 recompile, 4 reparse+compile
     bool st[5]; for (int i = 0; i < 5; i++) st[i] = !sd::g_args.drop.count(i) && r.chance(0.75);
-    char sc[200]; snprintf(sc, sizeof sc, "meshes=%d textures=%d muscles=%d steps=%d%d%d%d%d", nmesh, ntex, nmuscle, st[0], st[1], st[2], st[3], st[4]);
+    char sc[200]; snprintf(sc, sizeof sc, "meshes=%d textures=%d muscles=%d structure=%d fusestatic=%d steps=%d%d%d%d%d", nmesh, ntex, nmuscle, nstruct, (int)fuse, st[0], st[1], st[2], st[3], st[4]);
     sd::g_scenario = sc;
     sd::Rng r2(s ^ 0x5DEECE66DULL);
     vsim::Config cfg = sd::swarm(r2, {0, 0, 100, 1000, 10000}, {}, est_len);
@@ -110,11 +111,20 @@ int main(int argc, char** argv) {
       continue;
     }
     std::vector<char> ref = model_bytes(mref);
-    auto same = [&](const mjModel* m, const char* how) {
+    // `reuse`: the step compiles a spec that was compiled before (second compile, copy of a compiled spec, recompile).  With fusestatic
+    // the first compile leaves the spec changed, which is a recorded finding (its own class, so anything else still ends the run)
+    bool spec_tainted = false;
+    auto same = [&](const mjModel* m, const char* how, const char* reuse = nullptr) {
       if (!m) sd::violation("compile-failed", "%s failed although the reference compile succeeded", how);
       std::vector<char> b = model_bytes(m);
-      if (b.size() != ref.size() || memcmp(b.data(), ref.data(), ref.size()))
+      if (b.size() != ref.size() || memcmp(b.data(), ref.data(), ref.size())) {
+        if (fuse && reuse) {
+          char cls[96]; snprintf(cls, sizeof cls, "model-differs-after-fusestatic:%s", reuse);
+          if (sd::is_tolerated(cls)) { char pb[128]; snprintf(pb, sizeof pb, "tolerated_%s", cls); sd::probe(pb); spec_tainted = true; return; }
+          sd::violation(cls, "%s produced a different model (%zu vs %zu bytes; first difference in %s); the spec has fusestatic enabled", how, b.size(), ref.size(), diff_where(mref, m).c_str());
+        }
         sd::violation("model-differs", "%s produced a different model (%zu vs %zu bytes; first difference in %s)", how, b.size(), ref.size(), diff_where(mref, m).c_str());
+      }
     };
     // ---- threaded compile of a freshly parsed spec, under this run's schedule
     mjSpec* s1 = mj_parseXMLString(xml.c_str(), nullptr, err, sizeof err);
@@ -122,15 +132,15 @@ int main(int argc, char** argv) {
     mjModel* m1 = mj_compile(s1, nullptr);
     same(m1, "threaded compile (usethread=1)");
     sd::probe("threaded_compiles");
-    if (st[0]) { mjModel* m2 = mj_compile(s1, nullptr); same(m2, "second compile of the same spec"); mj_deleteModel(m2); sd::probe("second_compiles"); }
+    if (st[0]) { mjModel* m2 = mj_compile(s1, nullptr); same(m2, "second compile of the same spec", "second-compile"); mj_deleteModel(m2); sd::probe("second_compiles"); }
     if (st[1]) {
       mjSpec* sc2 = mj_copySpec(s1);
       if (!sc2) sd::violation("copy-failed", "mj_copySpec returned NULL");
-      mjModel* m3 = mj_compile(sc2, nullptr); same(m3, "compile of mj_copySpec(spec)");
+      mjModel* m3 = mj_compile(sc2, nullptr); same(m3, "compile of mj_copySpec(spec)", "copy-of-compiled-spec");
       mj_deleteModel(m3);
       // and the copy compiled without threads
       sc2->compiler.usethread = 0;
-      mjModel* m4 = mj_compile(sc2, nullptr); same(m4, "single-threaded compile of mj_copySpec(spec)");
+      mjModel* m4 = mj_compile(sc2, nullptr); same(m4, "single-threaded compile of mj_copySpec(spec)", "copy-of-compiled-spec");
       mj_deleteModel(m4); mj_deleteSpec(sc2); sd::probe("copyspec_compiles");
     }
     if (st[2]) { mjModel* m5 = mj_copyModel(nullptr, m1); same(m5, "mj_copyModel"); mj_deleteModel(m5); sd::probe("copymodel"); }
@@ -145,7 +155,7 @@ int main(int argc, char** argv) {
       mjtNum t = d->time;
       int rc = mj_recompile(s1, nullptr, m1, d);
       if (rc != 0) sd::violation("recompile-failed", "mj_recompile of an unchanged spec returned %d: %s", rc, mjs_getError(s1));
-      same(m1, "mj_recompile (model)");
+      same(m1, "mj_recompile (model)", "recompile");
       if (memcmp(&t, &d->time, sizeof t)) sd::violation("recompile-state", "mj_recompile changed time %.17g -> %.17g", t, d->time);
       if (qpos.size() && memcmp(qpos.data(), d->qpos, qpos.size() * sizeof(mjtNum))) sd::violation("recompile-state", "mj_recompile changed qpos");
       if (qvel.size() && memcmp(qvel.data(), d->qvel, qvel.size() * sizeof(mjtNum))) sd::violation("recompile-state", "mj_recompile changed qvel");
